@@ -579,3 +579,31 @@ VARIANTS += [
     silent('r8-twin-text-to-tokens-split', ['C17'], [(SP, "    for whitespace, newline in _SPACING_GROUP_RE.findall(text):\n        if whitespace:\n            yield Whitespace.from_raw_text(whitespace)\n        if newline:\n            yield Newline.from_raw_text(newline)\n",
                                                       "    parts = re.split(r'(\\r*\\n)', text)\n    for blanks, line_break in zip(parts[::2], parts[1::2]):\n        if blanks:\n            yield Whitespace.from_raw_text(blanks)\n        yield Newline.from_raw_text(line_break)\n    if parts[-1]:\n        yield Whitespace.from_raw_text(parts[-1])\n")]),
 ]
+
+# ---------------------------------------------------------------------- round 9 (eight properties with the lowest first-run rates)
+ACC = 'autobean_refactor/models/account.py'
+NUMF = 'autobean_refactor/models/number.py'
+CST = 'autobean_refactor/models/cost.py'
+CUS = 'autobean_refactor/models/custom.py'
+_UNS_OLD = ("    match value:\n        case str():\n            return EscapedString.from_value(value)\n        case datetime.date():\n            return Date.from_value(value)\n"
+            "        case bool():\n            return Bool.from_value(value)\n        case decimal.Decimal():\n            return NumberExpr.from_value(value)\n        case _:\n            return value\n")
+VARIANTS += [
+    fire('r9-matches-text-prefix', ['C16'], [(PRN, "    return file\n", "    return file\n\n\ndef matches_text(model: models.RawModel, text: str) -> bool:\n    pos = 0\n    for token in model.tokens:\n        raw_text = token.raw_text\n        if not text.startswith(raw_text, pos):\n            return False\n        pos += len(raw_text)\n    return True\n"),
+                                             (ED, "        updated_text = printer.print_model(file, io.StringIO()).getvalue()\n        if updated_text != text:\n            with p.open('w', newline='') as f:\n                f.write(updated_text)", "        if not printer.matches_text(file, text):\n            with p.open('w', newline='') as f:\n                printer.print_model(file, f)")], 'ED-SEM'),
+    silent('r9-twin-matches-text-exact', ['C16'], [(PRN, "    return file\n", "    return file\n\n\ndef matches_text(model: models.RawModel, text: str) -> bool:\n    pos = 0\n    for token in model.tokens:\n        raw_text = token.raw_text\n        if not text.startswith(raw_text, pos):\n            return False\n        pos += len(raw_text)\n    return pos == len(text)\n"),
+                                                   (ED, "        updated_text = printer.print_model(file, io.StringIO()).getvalue()\n        if updated_text != text:\n            with p.open('w', newline='') as f:\n                f.write(updated_text)", "        if not printer.matches_text(file, text):\n            with p.open('w', newline='') as f:\n                printer.print_model(file, f)")]),
+    fire('r9-includes-stop-at-dated-entry', ['C16'], [(ED, "        if not isinstance(directive, models.Include):\n            continue\n", "        if not isinstance(directive, models.Include):\n            if hasattr(directive, 'raw_date'):\n                break\n            continue\n")], 'ED-SEM'),
+    fire('r9-wrapper-caches-items', ['C10'], [(PR, "        self._update_handlers = list[RepeatedNodeWrapperUpdateHandler]()\n", "        self._items = repeated.items\n        self._update_handlers = list[RepeatedNodeWrapperUpdateHandler]()\n"),
+                                              (PR, "    def __len__(self) -> int:\n        return len(self._repeated.items)", "    def __len__(self) -> int:\n        return len(self._items)")], 'ALIAS-REBIND'),
+    silent('r9-twin-wrapper-caches-field-separators', ['C10'], [(PR, "        self._update_handlers = list[RepeatedNodeWrapperUpdateHandler]()\n", "        self._seps = field.separators\n        self._update_handlers = list[RepeatedNodeWrapperUpdateHandler]()\n")]),
+    fire('r9-view-index-negative-start', ['C10'], [(VP, "    def discard(self, value: _V) -> None:\n", "    def index(self, value: _V, start: int = 0, stop: Optional[int] = None) -> int:\n        for i, raw_index in enumerate(self._raw_indexes[start:stop], start):\n            v = self._from_raw_type(self._raw_wrapper[raw_index])\n            if v is value or v == value:\n                return i\n        raise ValueError(f'{value!r} is not in list')\n\n    def discard(self, value: _V) -> None:\n")], 'VIEW-SEM'),
+    fire('r9-account-nfc', ['C12', 'C09'], [(ACC, "    RULE = 'ACCOUNT'\n", "    RULE = 'ACCOUNT'\n\n    @classmethod\n    def _format_value(cls, value: str) -> str:\n        import unicodedata\n        return unicodedata.normalize('NFC', value)\n")], None),
+    fire('r9-account-ascii-only-check', ['C12'], [(ACC, "    RULE = 'ACCOUNT'\n", "    RULE = 'ACCOUNT'\n\n    @classmethod\n    def _format_value(cls, value: str) -> str:\n        if not all(part[:1].isupper() or part[:1].isdigit() for part in value.split(':')):\n            raise ValueError(f'Invalid account name: {value!r}')\n        return value\n")], 'TOK-RT'),
+    fire('r9-number-grouping-check-too-strict', ['C12'], [(NUMF, "        return decimal.Decimal(raw_text.replace(',', ''))", "        import re\n        if ',' in raw_text and not re.fullmatch(r'[0-9]{1,3}(,[0-9]{3})+(\\.[0-9]+)?', raw_text):\n            raise ValueError(f'Invalid number: {raw_text!r}')\n        return decimal.Decimal(raw_text.replace(',', ''))")], 'LEX-ACCEPT'),
+    silent('r9-twin-number-grouping-check', ['C12'], [(NUMF, "        return decimal.Decimal(raw_text.replace(',', ''))", "        import re\n        if ',' in raw_text and not re.fullmatch(r'[0-9]{1,3}(,[0-9]{3})+(\\.[0-9]*)?', raw_text):\n            raise ValueError(f'Invalid number: {raw_text!r}')\n        return decimal.Decimal(raw_text.replace(',', ''))")]),
+    fire('r9-custom-unsimplify-exact-type', ['C09', 'C15'], [(CUS, _UNS_OLD, "    raw_type = {str: EscapedString, datetime.date: Date, bool: Bool, decimal.Decimal: NumberExpr}.get(type(value))\n    if raw_type is None:\n        return value\n    return raw_type.from_value(value)\n")], 'CUSTOM-SEM'),
+    fire('r9-parsed-children-truthy-narration', ['C09', 'C15'], [(TR, "        return super().from_parsed_children(\n            token_store,\n            leading_comment,\n            date,\n            flag,\n            string0,\n            string1,\n            string2,\n            *args)", "        model = super().from_parsed_children(\n            token_store,\n            leading_comment,\n            date,\n            flag,\n            string0,\n            string1,\n            string2,\n            *args)\n        if model.payee is not None and not model.narration:\n            model._string1, model._string2 = None, model._string1\n        return model")], 'PRESENCE-TRUTH'),
+    fire('r9-swap-braces-whole-store', ['C09'], [(CST, "        self.token_store.replace(self._left_brace, dbl_left_brace)\n        self.token_store.replace(self._right_brace, dbl_right_brace)\n", "        old_left, *_, old_right = self.token_store\n        self.token_store.replace(old_left, dbl_left_brace)\n        self.token_store.replace(old_right, dbl_right_brace)\n")], 'STORE-EDGE'),
+    fire('r9-find-spacing-none-hoisted', ['C17'], [(SP, "    while token is not None and not token.raw_text:\n        token = succ(token)\n", "    if token is None:\n        return tokens\n    while not token.raw_text:\n        token = succ(token)\n")], None),
+    fire('r9-raw-text-redeclared-read-only', ['C02'], [(BA, "    @property\n    def token_store(self) -> Optional[TokenStore]:\n        return self.store_handle.block.store if self.store_handle else None", "    @property\n    def raw_text(self) -> str:\n        return super().raw_text\n\n    @property\n    def token_store(self) -> Optional[TokenStore]:\n        return self.store_handle.block.store if self.store_handle else None")], 'PROP-SHADOW'),
+]
